@@ -19,7 +19,7 @@ func init() {
 		Quick: 96, Thorough: 2400, FloorQuick: 60, FloorThorough: 1500,
 		CaseTimeout: 10 * time.Minute,
 		Assumptions: []string{"programs run with --quiet: operation-log lines ('N records updated on ...') are not query results", "no RAND/NOW-like functions and no assignments inside queries are generated (excluded by the statement)"},
-		Fn: c12Case,
+		Fn:          c12Case,
 	})
 }
 
@@ -42,58 +42,17 @@ func genC12(r *core.Rng) (files map[string]string, program string, class string)
 	m := r.Range(3, 200)
 	u := genTable(r, "u", m, []colProfile{{Kind: "k", Vals: keys[:nk]}, {Kind: "ints"}}, []string{"k", "w"})
 	files = map[string]string{"t.csv": t.CSV(), "u.csv": u.CSV()}
-	sel := []string{
-		"SELECT id, k, v, s FROM t WHERE v > 2 OR s IS NULL",
-		"SELECT id, v * 2 AS dbl, UPPER(s) AS us FROM t WHERE id % 3 <> 0",
-		"SELECT t.id, u.id AS uid, t.k, u.w FROM t INNER JOIN u ON t.k = u.k AND t.v = u.w",
-		"SELECT t.id, u.id AS uid FROM t LEFT JOIN u ON t.k = u.k AND u.w > 5 WHERE t.id % 7 = 0",
-		"SELECT u.id, t.id AS tid FROM u RIGHT JOIN t ON t.k = u.k AND t.id = u.id",
-		"SELECT t.id, u.id AS uid FROM t FULL JOIN u ON t.id = u.id",
-		"SELECT t.id, x.id AS xid FROM t CROSS JOIN (SELECT id FROM u WHERE id <= 3) x WHERE t.id % 11 = 0",
-		"SELECT k, COUNT(*) AS c, SUM(v) AS sv, MIN(s) AS mn, MAX(id) AS mx FROM t GROUP BY k",
-		"SELECT k, v, COUNT(*) AS c FROM t GROUP BY k, v",
-		"SELECT k, LISTAGG(id, ' ') AS ids FROM t GROUP BY k",
-		"SELECT k, JSON_AGG(v) AS vs FROM t GROUP BY k",
-		"SELECT s, COUNT(*) AS c, AVG(v) AS a FROM t GROUP BY s HAVING COUNT(*) > 1",
-		"SELECT k, COUNT(*) AS c FROM t GROUP BY k ORDER BY c DESC, k",
-		"SELECT DISTINCT k, v FROM t",
-		"SELECT DISTINCT s FROM t",
-		"SELECT k, v FROM t UNION SELECT k, w FROM u",
-		"SELECT k, v FROM t EXCEPT SELECT k, w FROM u",
-		"SELECT k, v FROM t INTERSECT SELECT k, w FROM u",
-		"SELECT id, k, ROW_NUMBER() OVER (PARTITION BY k ORDER BY v, id) AS rn, RANK() OVER (PARTITION BY k ORDER BY v) AS rk FROM t",
-		"SELECT id, SUM(v) OVER (PARTITION BY k) AS sv, COUNT(*) OVER (PARTITION BY k, v) AS c FROM t",
-		"SELECT id, LAG(v) OVER (PARTITION BY k ORDER BY id) AS pv, FIRST_VALUE(s) OVER (PARTITION BY k ORDER BY id) AS fs FROM t",
-		"SELECT id, LISTAGG(id, ',') OVER (PARTITION BY v) AS peers FROM t WHERE id % 5 = 0",
-		"SELECT id, k, v FROM t ORDER BY v, k LIMIT 50",
-		"SELECT id, k, v FROM t ORDER BY k DESC LIMIT 10 PERCENT WITH TIES",
-		"SELECT id, (SELECT COUNT(*) FROM u WHERE u.k = t.k) AS cnt FROM t WHERE id % 13 = 0",
-		"SELECT id FROM t WHERE v IN (SELECT w FROM u) AND EXISTS (SELECT 1 FROM u WHERE u.k = t.k)",
-		"SELECT k, MEDIAN(v) AS md, STDEV(v) AS sd FROM t GROUP BY k",
-	}
-	dml := []string{
-		"INSERT INTO u (id, k, w) SELECT id + 100000, k, v FROM t WHERE v > 3; SELECT COUNT(*) FROM u",
-		"UPDATE t SET s = k || '-' || v WHERE v % 2 = 0; SELECT COUNT(*) FROM t WHERE s LIKE '%-%'",
-		"UPDATE t SET v = u.w FROM t JOIN u ON t.id = u.id; SELECT SUM(v) FROM t",
-		"DELETE FROM t WHERE v < 3 OR s IS NULL; SELECT COUNT(*) FROM t",
-		"REPLACE INTO u (id, k, w) USING (id) SELECT id, k, v FROM t WHERE id % 2 = 0; SELECT COUNT(*) FROM u",
-		"CREATE TABLE `g.csv` (k, c, ids) AS SELECT k, COUNT(*), LISTAGG(id, ' ') FROM t GROUP BY k",
-		"CREATE TABLE `d.csv` AS SELECT DISTINCT k, v FROM t",
-		"ALTER TABLE t ADD (z DEFAULT v * 2, y DEFAULT k || s) AFTER k; SELECT COUNT(*) FROM t",
-		"INSERT INTO u SELECT id + 200000, k, COUNT(*) OVER (PARTITION BY k) FROM t WHERE id % 4 = 0",
-		"CREATE TABLE `j.csv` AS SELECT t.id, u.id AS uid FROM t JOIN u ON t.k = u.k WHERE t.id % 9 = 0",
-	}
 	var parts []string
 	if r.P(40) {
 		class = "dml"
-		parts = append(parts, dml[r.Intn(len(dml))])
+		parts = append(parts, c12Dml[r.Intn(len(c12Dml))])
 		if r.P(50) {
-			parts = append(parts, sel[r.Intn(len(sel))])
+			parts = append(parts, c12Sel[r.Intn(len(c12Sel))])
 		}
 	} else {
 		class = "select"
 		for k := r.Range(1, 3); k > 0; k-- {
-			parts = append(parts, sel[r.Intn(len(sel))])
+			parts = append(parts, c12Sel[r.Intn(len(c12Sel))])
 		}
 	}
 	return files, strings.Join(parts, ";\n") + ";", class
@@ -210,4 +169,52 @@ func firstDiff(a, b string) string {
 		}
 	}
 	return "(no line difference)"
+}
+
+var c12Sel = []string{
+	"SELECT id, k, v, s FROM t WHERE v > 2 OR s IS NULL",
+	"SELECT id, v * 2 AS dbl, UPPER(s) AS us FROM t WHERE id % 3 <> 0",
+	"SELECT t.id, u.id AS uid, t.k, u.w FROM t INNER JOIN u ON t.k = u.k AND t.v = u.w",
+	"SELECT t.id, u.id AS uid FROM t LEFT JOIN u ON t.k = u.k AND u.w > 5 WHERE t.id % 7 = 0",
+	"SELECT u.id, t.id AS tid FROM u RIGHT JOIN t ON t.k = u.k AND t.id = u.id",
+	"SELECT t.id, u.id AS uid FROM t FULL JOIN u ON t.id = u.id",
+	"SELECT COUNT(*) FROM t FULL JOIN u ON t.k = u.k",
+	"SELECT t.id, u.id AS uid FROM t FULL JOIN u ON t.k = u.k AND t.v < u.w",
+	"SELECT t.id, u.id AS uid FROM u RIGHT JOIN t ON t.k = u.k WHERE u.w > 3",
+	"SELECT t.id, u.id AS uid FROM t LEFT JOIN u ON t.k = u.k WHERE t.id % 3 = 0",
+	"SELECT k, t.id, u.id AS uid FROM t JOIN u USING (k) WHERE t.v = u.w",
+	"SELECT t.id, u.id AS uid FROM t NATURAL JOIN u",
+	"SELECT t.id, x.id AS xid FROM t CROSS JOIN (SELECT id FROM u WHERE id <= 3) x WHERE t.id % 11 = 0",
+	"SELECT k, COUNT(*) AS c, SUM(v) AS sv, MIN(s) AS mn, MAX(id) AS mx FROM t GROUP BY k",
+	"SELECT k, v, COUNT(*) AS c FROM t GROUP BY k, v",
+	"SELECT k, LISTAGG(id, ' ') AS ids FROM t GROUP BY k",
+	"SELECT k, JSON_AGG(v) AS vs FROM t GROUP BY k",
+	"SELECT s, COUNT(*) AS c, AVG(v) AS a FROM t GROUP BY s HAVING COUNT(*) > 1",
+	"SELECT k, COUNT(*) AS c FROM t GROUP BY k ORDER BY c DESC, k",
+	"SELECT DISTINCT k, v FROM t",
+	"SELECT DISTINCT s FROM t",
+	"SELECT k, v FROM t UNION SELECT k, w FROM u",
+	"SELECT k, v FROM t EXCEPT SELECT k, w FROM u",
+	"SELECT k, v FROM t INTERSECT SELECT k, w FROM u",
+	"SELECT id, k, ROW_NUMBER() OVER (PARTITION BY k ORDER BY v, id) AS rn, RANK() OVER (PARTITION BY k ORDER BY v) AS rk FROM t",
+	"SELECT id, SUM(v) OVER (PARTITION BY k) AS sv, COUNT(*) OVER (PARTITION BY k, v) AS c FROM t",
+	"SELECT id, LAG(v) OVER (PARTITION BY k ORDER BY id) AS pv, FIRST_VALUE(s) OVER (PARTITION BY k ORDER BY id) AS fs FROM t",
+	"SELECT id, LISTAGG(id, ',') OVER (PARTITION BY v) AS peers FROM t WHERE id % 5 = 0",
+	"SELECT id, k, v FROM t ORDER BY v, k LIMIT 50",
+	"SELECT id, k, v FROM t ORDER BY k DESC LIMIT 10 PERCENT WITH TIES",
+	"SELECT id, (SELECT COUNT(*) FROM u WHERE u.k = t.k) AS cnt FROM t WHERE id % 13 = 0",
+	"SELECT id FROM t WHERE v IN (SELECT w FROM u) AND EXISTS (SELECT 1 FROM u WHERE u.k = t.k)",
+	"SELECT k, MEDIAN(v) AS md, STDEV(v) AS sd FROM t GROUP BY k",
+}
+var c12Dml = []string{
+	"INSERT INTO u (id, k, w) SELECT id + 100000, k, v FROM t WHERE v > 3; SELECT COUNT(*) FROM u",
+	"UPDATE t SET s = k || '-' || v WHERE v % 2 = 0; SELECT COUNT(*) FROM t WHERE s LIKE '%-%'",
+	"UPDATE t SET v = u.w FROM t JOIN u ON t.id = u.id; SELECT SUM(v) FROM t",
+	"DELETE FROM t WHERE v < 3 OR s IS NULL; SELECT COUNT(*) FROM t",
+	"REPLACE INTO u (id, k, w) USING (id) SELECT id, k, v FROM t WHERE id % 2 = 0; SELECT COUNT(*) FROM u",
+	"CREATE TABLE `g.csv` (k, c, ids) AS SELECT k, COUNT(*), LISTAGG(id, ' ') FROM t GROUP BY k",
+	"CREATE TABLE `d.csv` AS SELECT DISTINCT k, v FROM t",
+	"ALTER TABLE t ADD (z DEFAULT v * 2, y DEFAULT k || s) AFTER k; SELECT COUNT(*) FROM t",
+	"INSERT INTO u SELECT id + 200000, k, COUNT(*) OVER (PARTITION BY k) FROM t WHERE id % 4 = 0",
+	"CREATE TABLE `j.csv` AS SELECT t.id, u.id AS uid FROM t JOIN u ON t.k = u.k WHERE t.id % 9 = 0",
 }
